@@ -236,17 +236,8 @@ def step (s : S) (ts : List String) : S × String :=
       | some (dsp, dst), some (ssp, sst), some names =>
         match lookup s.spaces dsp, lookup s.spaces ssp with
         | some dS, some sS =>
-          let rec unwrapSp : Sp → Sp
-            | .wrapper _ s => unwrapSp s
-            | sp => sp
-          let rec unwrapSt : Sp → St → St
-            | .wrapper _ s, .wrap x => unwrapSt s x
-            | _, st => st
-          let rec rewrap : Sp → St → St
-            | .wrapper _ s, x => .wrap (rewrap s x)
-            | _, x => x
-          let r := csdNames (unwrapSp dS) (unwrapSt dS dst) (unwrapSp sS) (unwrapSt sS sst) names
-          let st' := rewrap dS r.1
+          let r := csdNamesW dS dst sS sst names
+          let st' := r.1
           ({ s with states := insert s.states d (dsp, st') }, s!"ok res={r.2.code} atoms={atomsStr dS st'}")
         | _, _ => bad
       | _, _, _ => bad
